@@ -160,6 +160,7 @@ fn hdr_palette() -> Vec<Header> {
         Header::default(),
         Header { key_id: vec![9], ..Default::default() },
         Header { alg: Some(Algorithm::Assigned(iana::Algorithm::ES256)), iv: vec![1, 2], rest: vec![(Label::Int(99), Value::from(1))], ..Default::default() },
+        Header { partial_iv: vec![3], ..Default::default() },
     ]
 }
 fn gen_hdr(g: &mut Gen) -> Header {
@@ -179,6 +180,11 @@ fn gen_hdr(g: &mut Gen) -> Header {
     }
     if g.bool() {
         h.rest.push((Label::Text(g.text()), gen_val(g)));
+    }
+    match g.below(6) {
+        0 => h.iv = g.small_bytes(),
+        1 => h.partial_iv = g.small_bytes(),
+        _ => {}
     }
     if g.ratio(1, 4) {
         h.counter_signatures.push(decoded_countersig());
@@ -1105,7 +1111,16 @@ enum DOp {
     PartyU(Vec<POp>),
     PartyV(Vec<POp>),
     Supp(Vec<SOp>),
+    /// a SuppPubInfo as a decoder yields it: (key data length, protected bytes as received, other)
+    SuppReceived(u64, Vec<u8>, Option<Vec<u8>>),
     AddPriv(Vec<u8>),
+}
+/// Protected-header contents as a peer may send them: zero-length, an encoded empty map (definite and
+/// indefinite), a header in the crate's own encoding and in other encodings.
+const RECEIVED_PROTECTED: &[&[u8]] = &[&[], &[0xa0], &[0xbf, 0xff], &[0xb8, 0x00], &[0xa1, 0x04, 0x41, 0x01], &[0xa1, 0x18, 0x04, 0x41, 0x01], &[0xbf, 0x04, 0x41, 0x01, 0xff], &[0xa2, 0x04, 0x41, 0x01, 0x01, 0x26]];
+fn received_supp(len: u64, wire: &[u8], other: &Option<Vec<u8>>) -> SuppPubInfo {
+    let protected = ProtectedHeader::from_cbor_bstr(Value::Bytes(wire.to_vec())).expect("palette headers decode");
+    SuppPubInfo { key_data_length: len, protected, other: other.clone() }
 }
 struct KdfSpec;
 impl Spec for KdfSpec {
@@ -1122,6 +1137,8 @@ impl Spec for KdfSpec {
             DOp::PartyV(vec![POp::NonceInt(5), POp::Other(vec![2])]),
             DOp::Supp(vec![SOp::KeyDataLength(128)]),
             DOp::Supp(vec![SOp::Protected(hdr_palette()[2].clone()), SOp::Other(vec![9])]),
+            DOp::SuppReceived(128, vec![0xa0], None),
+            DOp::SuppReceived(256, vec![0xa1, 0x18, 0x04, 0x41, 0x01], Some(vec![3])),
             DOp::AddPriv(vec![]),
             DOp::AddPriv(vec![7]),
         ]
@@ -1131,7 +1148,8 @@ impl Spec for KdfSpec {
             let n = g.below(4);
             (0..n).map(|_| PartySpec::gen_op(g)).collect()
         };
-        match g.below(5) {
+        match g.below(6) {
+            5 => DOp::SuppReceived(*g.pick(&[0u64, 128, 256, u64::MAX]), g.pick(RECEIVED_PROTECTED).to_vec(), if g.bool() { Some(gen_bytes(g)) } else { None }),
             0 => DOp::Algorithm(reg::ALGORITHM[g.below(reg::ALGORITHM.len())].1),
             1 => DOp::PartyU(party(g)),
             2 => DOp::PartyV(party(g)),
@@ -1148,6 +1166,7 @@ impl Spec for KdfSpec {
             DOp::PartyU(p) => b.party_u_info(PartySpec::model(&p).unwrap()),
             DOp::PartyV(p) => b.party_v_info(PartySpec::model(&p).unwrap()),
             DOp::Supp(s) => b.supp_pub_info(SuppSpec::model(&s).unwrap()),
+            DOp::SuppReceived(n, w, o) => b.supp_pub_info(received_supp(n, &w, &o)),
             DOp::AddPriv(v) => b.add_supp_priv_info(v),
         });
         built.map(|k| k.to_vec().expect("KDF context encodes"))
@@ -1165,6 +1184,7 @@ impl Spec for KdfSpec {
                 DOp::PartyU(p) => u = PartySpec::model(&p).unwrap(),
                 DOp::PartyV(p) => v = PartySpec::model(&p).unwrap(),
                 DOp::Supp(x) => s = SuppSpec::model(&x).unwrap(),
+                DOp::SuppReceived(n, w, o) => s = received_supp(n, &w, &o),
                 DOp::AddPriv(b) => privs.push(b),
             }
         }
@@ -1180,7 +1200,12 @@ impl Spec for KdfSpec {
             ])
         };
         // the protected slot of a built header: h'' when empty, else the bstr the header encodes to
-        let prot = if s.protected.header.is_empty() { vec![] } else { s.protected.header.clone().to_vec().expect("header encodes") };
+        // (a received header: the bytes as received)
+        let prot = match &s.protected.original_data {
+            Some(w) => w.clone(),
+            None if s.protected.header.is_empty() => vec![],
+            None => s.protected.header.clone().to_vec().expect("header encodes"),
+        };
         let mut supp = vec![Item::Int(s.key_data_length as i128), Item::Bytes(prot)];
         if let Some(o) = &s.other {
             supp.push(Item::Bytes(o.clone()));
